@@ -3,6 +3,7 @@ import FM.Model.Wrap
 import FM.Model.Sentence
 import FM.Model.Frontmatter
 import FM.Model.Config
+import FM.Model.FillText
 /-
   One operation per input line, one canonical answer per output line.
 -/
@@ -79,6 +80,15 @@ def step (line : String) : String :=
           | some (k, .pyproject) => s!"{k}:pyproject.toml"
           | none => "none"
       | none => bad
+  | ["fillText", mode, t, w, ex, em, ic] =>
+      let m : Option WrapMode := match mode with
+        | "none" => some .none | "wrap" => some .wrap | "wrap_full" => some .wrapFull
+        | "wrap_indent" => some .wrapIndent | "indent_only" => some .indentOnly
+        | "hanging_indent" => some .hangingIndent | "markdown_item" => some .markdownItem
+        | _ => none
+      match m, decStr t, decInt w, decStr ex, decStr em, decNat ic with
+      | some m, some t, some w, some ex, some em, some ic => encStr (fillText pySplit t m w ex em ic)
+      | _, _, _, _, _, _ => bad
   | _ => bad
 
 partial def loop (hin hout : IO.FS.Stream) : IO Unit := do
